@@ -223,6 +223,23 @@ def _slot_consumers(seed):
             if not err <= 1e-10:
                 out.append((name, "%s reads the %s slot, but with only the other slot lowered (linalg_dtypes(%s)) its float64 result has relative "
                                   "error %.3g" % (name, slot, ", ".join("%s=float32" % k for k in other), err)))
+    # ---- a scalar setting takes effect in the computation that consumes it (not only in .value()): cholesky_max_tries
+    from linear_operator.utils.cholesky import psd_safe_cholesky
+    from linear_operator.utils.errors import NotPSDError
+
+    Bm = torch.tensor([[1.0, 1.0 + 3e-5], [1.0 + 3e-5, 1.0]], dtype=torch.float64)      # smallest eigenvalue -3e-5: needs jitter 1e-8 * 10^4
+    with warnings.catch_warnings():
+        warnings.simplefilter("ignore")
+        for tries, expect_ok in ((6, True), (2, False)):
+            try:
+                with S.cholesky_max_tries(tries):
+                    psd_safe_cholesky(Bm)
+                ok = True
+            except NotPSDError:
+                ok = False
+            if ok != expect_ok:
+                out.append(("psd_safe_cholesky[cholesky_max_tries]", "with settings.cholesky_max_tries(%d) the factorization of a matrix that needs 5 attempts %s"
+                            % (tries, "raised NotPSDError" if not ok else "succeeded")))
     return out
 
 
@@ -282,7 +299,7 @@ def run(tier, seed):
                 dict(history=hist, binding_base=seed + j))
     # ---- use sites of the two linalg dtype slots: a computation that reads the symeig slot must not feel the cholesky slot (and vice versa)
     for name, msg in _slot_consumers(seed):
-        res.violation("%s|consumer|%s|other-dtype-slot-changes-the-result" % (PROP, name), msg, dict(consumer=name, history=[]))
+        res.violation("%s|consumer|%s|use-site-does-not-follow-the-settings" % (PROP, name), msg, dict(consumer=name, history=[]))
     for h in hists:
         res.nontrivial.add("".join(e["act"][0] + str(e["ctx"]) + e["obj"]["cls"] for e in h))
     res.samples = [[dict(act=e["act"], ctx=e["ctx"], cls=e["obj"]["cls"], args=[e["obj"]["a"], e["obj"]["b"], e["obj"]["c"]], expect=e["expect"])
